@@ -281,8 +281,16 @@ impl Chunk for MwmoChunk {
         }
 
         // Read all data
-        let mut data = vec![0u8; size];
-        reader.read_exact(&mut data)?;
+        // The size comes from the file: read what is there instead of allocating it up front
+        let mut data = Vec::new();
+        reader.by_ref().take(size as u64).read_to_end(&mut data)?;
+        if data.len() != size as usize {
+            return Err(std::io::Error::new(
+                std::io::ErrorKind::UnexpectedEof,
+                "data extends beyond the end of the file",
+            )
+            .into());
+        }
 
         // Split by null terminators
         let mut filenames = Vec::new();
@@ -409,7 +417,8 @@ impl Chunk for ModfChunk {
         }
 
         let count = size / 64;
-        let mut entries = Vec::with_capacity(count);
+        // `count` comes from the chunk size field: it is only a pre-allocation hint
+        let mut entries = Vec::with_capacity(count.min(1 << 16));
 
         for _ in 0..count {
             let mut buf = [0u8; 4];
